@@ -156,6 +156,11 @@ def ident_tables(ctx, fn, result_enum, need_scope=True):
 
 
 def run(ctx):
+    _run_main(ctx)
+    acp_cache_refreshed_everywhere(ctx)
+
+
+def _run_main(ctx):
     F = ctx.facts
     ctx.explanation = ("Write gates: each of the five write operations performs its backend write only after its allow-operation returned true; "
                        "the per-entry modify decision needs no purge of class, at least one change and four subset tests; identity tables deny "
@@ -551,3 +556,14 @@ def per_entry(ctx, F):
         ctx.check(need <= have, "K4-classify", fn["fn"], f"requested-{f}:{'|'.join(sorted(need))}(class)", f"requested {f} classes collected from {sorted(have)}",
                   f"the class set tested against `{f}` is collected from {sorted(have) or 'no'} class modifications; it must include {sorted(need)}(class)",
                   file=fn["file"], line=fn["line"])
+
+
+# ---------------------------------------------------------------------------------------------------------------------
+# The grants a write is checked against are the *loaded* access control profiles. They are only the stored ones if every
+# write path - replication included - refreshes them (shared engine rules/lib/x_reload.py, see C31/C34).
+
+def acp_cache_refreshed_everywhere(ctx):
+    from .lib.x_reload import check_setting
+    check_setting(ctx, "K2-acp-cache-refreshed", "ACP", "reload_accesscontrols",
+                  "the loaded access control profiles stay stale on this server: a grant removed (or a protection added) elsewhere is not enforced here",
+                  ("EntryClass::AccessControlProfile",))
